@@ -274,6 +274,7 @@ def idxKeep : DateIdx → Date → Bool
 
 def metaKeep : MetaIdx → Cell → Bool
   | .is md, c => c.md == md
+  | .junk _, _ => false
   | _, _ => true
 
 theorem itemKeep_eq (p e : DateIdx) (m : MetaIdx) (c : Cell) :
@@ -323,6 +324,7 @@ theorem getItem_unfold (t : List Cell) (p e : DateIdx) (m : MetaIdx) :
     Triangle.getItem t p e m =
       (match m with
         | .is md => Triangle.filterP t (fun c => c.md == md)
+        | .junk _ => Triangle.filterP t (fun _ => false)
         | _ => pure t) >>= fun f => tailPipe f p e m := by
   unfold Triangle.getItem tailPipe
   cases m <;> rfl
@@ -380,9 +382,11 @@ theorem getItem_eq_filter {t : List Cell} (ht : Canon t)
     fun c hc => hr c (List.mem_filter.mp hc).1
   have h1 : (match m with
       | .is md => Triangle.filterP t (fun c => c.md == md)
+      | .junk _ => Triangle.filterP t (fun _ => false)
       | _ => (pure t : Except Err (List Cell))) = .ok (t.filter (metaKeep m)) := by
     cases m with
     | is md => exact filter_unchanged_sorted ht _
+    | junk b => exact filter_unchanged_sorted ht _
     | none => exact congrArg Except.ok (List.filter_eq_self.mpr (fun _ _ => rfl)).symm
     | all => exact congrArg Except.ok (List.filter_eq_self.mpr (fun _ _ => rfl)).symm
   rw [h1, hk]
@@ -562,5 +566,640 @@ example : ∃ lo hi, Triangle.clipFull exT { maxEval := some ⟨2020, 12, 31⟩ 
     Triangle.clipFull exT { minEval := some (Date.succ ⟨2020, 12, 31⟩) } = .ok hi ∧
     (lo ++ hi).Perm exT ∧ lo.length + hi.length = exT.length :=
   clip_complement_partition exT_canon ⟨2020, 12, 31⟩ (by decide) (by decide)
+
+/-! ### 8. `TriangleSlice(cells)` -/
+
+theorem singleSlice_iff (t : List Cell) :
+    singleSlice t = true ↔ ∀ a ∈ t, ∀ b ∈ t, a.md = b.md := by
+  cases t with
+  | nil => simp [singleSlice]
+  | cons c rest =>
+    simp only [singleSlice, List.all_eq_true, beq_iff_eq, List.mem_cons, forall_eq_or_imp]
+    constructor
+    · intro h
+      refine ⟨⟨trivial, fun b hb => (h b hb).symm⟩, fun a ha => ⟨h a ha, fun b hb => (h a ha).trans (h b hb).symm⟩⟩
+    · intro h b hb
+      exact (h.2 b hb).1
+
+theorem singleSlice_perm {a b : List Cell} (h : a.Perm b) : singleSlice a = singleSlice b := by
+  rw [Bool.eq_iff_iff, singleSlice_iff, singleSlice_iff]
+  constructor
+  · intro H x hx y hy; exact H x (h.mem_iff.mpr hx) y (h.mem_iff.mpr hy)
+  · intro H x hx y hy; exact H x (h.mem_iff.mp hx) y (h.mem_iff.mp hy)
+
+theorem singleSlice_sublist {s t : List Cell} (hs : s.Sublist t) (h : singleSlice t = true) :
+    singleSlice s = true := by
+  rw [singleSlice_iff] at *
+  exact fun a ha b hb => h a (hs.subset ha) b (hs.subset hb)
+
+theorem slices_length (t : List Cell) : (Triangle.slices t).length = (metasOf t).length := by
+  simp [Triangle.slices]
+
+/-- the number of slices exceeds one exactly when two cells differ in metadata -/
+theorem metasOf_length_le_one_iff (t : List Cell) :
+    (metasOf t).length ≤ 1 ↔ singleSlice t = true := by
+  obtain ⟨hnd, hmem, hcov⟩ := metasOf_spec t
+  rw [singleSlice_iff]
+  constructor
+  · intro h a ha b hb
+    have h1 := hcov a ha
+    have h2 := hcov b hb
+    match hm : metasOf t, h, h1, h2 with
+    | [], _, h1, _ => simp at h1
+    | [x], _, h1, h2 =>
+      simp only [List.mem_singleton] at h1 h2
+      exact h1.trans h2.symm
+    | _ :: _ :: _, h, _, _ => simp at h
+  · intro h
+    match hm : metasOf t with
+    | [] => simp
+    | [x] => simp
+    | x :: y :: rest =>
+      exfalso
+      rw [hm] at hnd hmem
+      obtain ⟨a, ha, ea⟩ := hmem x (by simp)
+      obtain ⟨b, hb, eb⟩ := hmem y (by simp)
+      have : x = y := by rw [← ea, ← eb]; exact h a ha b hb
+      simp [this] at hnd
+
+/-- **`TriangleSlice(cells)` accepts exactly the class-consistent cell sequences with a single
+metadata** and then holds the cells in canonical order (as `Triangle(cells)`); anything else is
+refused with `TriangleError` -/
+theorem sliceOfCells_eq (cells : List Cell) :
+    TriangleSlice.ofCells cells =
+      if kindsConsistent cells && singleSlice cells then .ok (cells.mergeSort Cell.le)
+      else .error .triangleError := by
+  unfold TriangleSlice.ofCells Triangle.ofCells
+  by_cases hk : kindsConsistent cells = true
+  · have hp : (cells.mergeSort Cell.le).Perm cells := List.mergeSort_perm _ _
+    simp only [hk, if_true, bind, Except.bind, Bool.true_and]
+    rw [slices_length]
+    by_cases h1 : singleSlice cells = true
+    · have : ¬ (metasOf (cells.mergeSort Cell.le)).length > 1 := by
+        have := (metasOf_length_le_one_iff _).mpr ((singleSlice_perm hp).trans h1)
+        omega
+      simp [h1, this, pure, Except.pure]
+    · have : (metasOf (cells.mergeSort Cell.le)).length > 1 := by
+        have := mt (metasOf_length_le_one_iff (cells.mergeSort Cell.le)).mp
+          (by rw [singleSlice_perm hp]; exact h1)
+        omega
+      simp [h1, this, throw, throwThe, MonadExceptOf.throw]
+  · simp [hk, bind, Except.bind]
+
+/-- on an already canonical single-slice cell list nothing is reordered -/
+theorem sliceOfCells_single {t : List Cell} (ht : Canon t) (h1 : singleSlice t = true) :
+    TriangleSlice.ofCells t = .ok t := by
+  rw [sliceOfCells_eq, ht.2, h1]
+  simp only [Bool.and_self, if_true]
+  congr 1
+  exact List.mergeSort_of_pairwise ht.1
+
+/-- **the multi-slice refusal**: two cells with different metadata → `TriangleError` -/
+theorem sliceOfCells_multi {cells : List Cell} {a b : Cell} (ha : a ∈ cells) (hb : b ∈ cells)
+    (hne : a.md ≠ b.md) : TriangleSlice.ofCells cells = .error .triangleError := by
+  rw [sliceOfCells_eq]
+  have : singleSlice cells = false := by
+    cases h : singleSlice cells with
+    | false => rfl
+    | true => exact absurd ((singleSlice_iff _).mp h a ha b hb) hne
+  simp [this]
+
+/-- the Spec predicates hold of the model's answer -/
+theorem sliceOfSpec_model {cells out : List Cell} (h : TriangleSlice.ofCells cells = .ok out) :
+    sliceOfSpec cells out = true ∧ sliceOfRefused cells = false := by
+  rw [sliceOfCells_eq] at h
+  split at h
+  · rename_i hc
+    simp only [Bool.and_eq_true] at hc
+    cases h
+    have hp : (cells.mergeSort Cell.le).Perm cells := List.mergeSort_perm _ _
+    refine ⟨?_, by simp [sliceOfRefused, hc.1, hc.2]⟩
+    simp only [sliceOfSpec, hc.2, Bool.true_and, Bool.and_eq_true, List.isPerm_iff]
+    exact ⟨hp, Properties.C01.chainB_of_pairwise (sorted_mergeSort (cmp := Cell.cmp) cells)⟩
+  · cases h
+
+theorem sliceOfRefused_model {cells : List Cell} {e : Err} (h : TriangleSlice.ofCells cells = .error e) :
+    e = .triangleError ∧ sliceOfRefused cells = true := by
+  rw [sliceOfCells_eq] at h
+  split at h
+  · cases h
+  · rename_i hc
+    cases h
+    refine ⟨rfl, ?_⟩
+    simp only [sliceOfRefused]
+    cases h1 : singleSlice cells <;> cases h2 : kindsConsistent cells <;> simp_all
+
+/-! ### 9. `slice[period, evaluation]` -/
+
+/-- the result of `TriangleSlice.__getitem__` as a function of the filtered cell list -/
+def sliceResult (p e : DateIdx) (r : List Cell) : Except Err (List Cell ⊕ Cell) :=
+  if p.isSlice || e.isSlice then .ok (.inl r)
+  else match r with
+    | [] => .error .indexError
+    | c :: _ => .ok (.inr c)
+
+theorem within_eq_idxKeep : within = idxKeep := by
+  funext i x; cases i <;> rfl
+
+theorem bounds_of_ne_bad {p e : DateIdx} (hp : p ≠ .bad) (he : e ≠ .bad) :
+    (∃ ps pe, p.periodBounds = .ok (ps, pe)) ∧ (∃ es ee, e.evalBounds = .ok (es, ee)) := by
+  constructor
+  · cases p with
+    | scalar d => exact ⟨d, d, rfl⟩
+    | slice s e => exact ⟨_, _, rfl⟩
+    | bad => exact absurd rfl hp
+  · cases e with
+    | scalar d => exact ⟨some d, some d, rfl⟩
+    | slice s e => exact ⟨_, _, rfl⟩
+    | bad => exact absurd rfl he
+
+/-- **indexing a slice equals the corresponding filter**: `slice[period, evaluation]` is exactly
+the cells whose period START lies within the period index and whose evaluation date lies within the
+evaluation index (a date: equal to it; a slice: both ends inclusive, an absent or falsy end
+unbounded) — unchanged, in canonical order and again a `TriangleSlice` when some index is a slice,
+else the first such cell (`IndexError` when there is none) -/
+theorem sliceGetItem_eq_filter {t : List Cell} (ht : Canon t) (h1 : singleSlice t = true)
+    (hr : ∀ c ∈ t, Date.min ≤ c.ps ∧ c.ps ≤ Date.max)
+    (p e : DateIdx) (hp : p ≠ .bad) (he : e ≠ .bad) :
+    TriangleSlice.getItem t p e = sliceResult p e (t.filter (sliceKeep p e)) := by
+  obtain ⟨⟨ps, pe, hpb⟩, ⟨es, ee, heb⟩⟩ := bounds_of_ne_bad hp he
+  have c2 : Canon (t.filter (fun c => decide (ps ≤ c.ps) && decide (c.ps ≤ pe))) :=
+    ht.sublist List.filter_sublist
+  have key : t.filter (sliceKeep p e) =
+      ((t.filter (fun c => decide (ps ≤ c.ps) && decide (c.ps ≤ pe))).filter
+        (clipKeep { minEval := es, maxEval := ee } .month)) := by
+    rw [List.filter_filter]
+    apply List.filter_congr
+    intro c hc
+    rw [periodBounds_keep hpb c.ps (hr c hc), evalBounds_keep heb c]
+    simp [sliceKeep, within_eq_idxKeep, Bool.and_comm]
+  have hsub : (t.filter (sliceKeep p e)).Sublist t := List.filter_sublist
+  unfold TriangleSlice.getItem
+  simp only [hpb, heb, bind, Except.bind, filter_unchanged_sorted ht,
+    clip_exact c2 { minEval := es, maxEval := ee } .month rfl, ← key]
+  unfold sliceResult
+  split
+  · rw [sliceOfCells_single (ht.sublist hsub) (singleSlice_sublist hsub h1)]
+    rfl
+  · cases t.filter (sliceKeep p e) <;> rfl
+
+/-- a non-date, non-slice period index is refused … -/
+theorem sliceGetItem_bad_period (t : List Cell) (e : DateIdx) :
+    TriangleSlice.getItem t .bad e = .error .valueError := rfl
+
+/-- … and so is such an evaluation index (after the period stage) -/
+theorem sliceGetItem_bad_eval {t : List Cell} (ht : Canon t) (p : DateIdx) (hp : p ≠ .bad) :
+    TriangleSlice.getItem t p .bad = .error .valueError := by
+  obtain ⟨ps, pe, hpb⟩ := (bounds_of_ne_bad hp (e := .scalar Date.min) (by simp)).1
+  unfold TriangleSlice.getItem
+  simp [hpb, bind, Except.bind, filter_unchanged_sorted ht, DateIdx.evalBounds]
+
+theorem getItem_bad_eval {t : List Cell} (ht : Canon t) (p : DateIdx) (m : MetaIdx) (hp : p ≠ .bad) :
+    Triangle.getItem t p .bad m = .error .valueError := by
+  obtain ⟨ps, pe, hpb⟩ := (bounds_of_ne_bad hp (e := .scalar Date.min) (by simp)).1
+  have hf : ∀ q : Cell → Bool, Canon (t.filter q) := fun q => ht.sublist List.filter_sublist
+  unfold Triangle.getItem
+  cases m <;>
+    simp [hpb, bind, Except.bind, pure, Except.pure, filter_unchanged_sorted ht,
+      filter_unchanged_sorted (hf _), DateIdx.evalBounds]
+
+/-- the Spec predicate holds of the model's answer -/
+theorem sliceItemSpec_model {t : List Cell} (ht : Canon t) (h1 : singleSlice t = true)
+    (hr : ∀ c ∈ t, Date.min ≤ c.ps ∧ c.ps ≤ Date.max)
+    (p e : DateIdx) (hp : p ≠ .bad) (he : e ≠ .bad) {out : List Cell ⊕ Cell}
+    (h : TriangleSlice.getItem t p e = .ok out) : sliceItemSpec t p e out = true := by
+  rw [sliceGetItem_eq_filter ht h1 hr p e hp he] at h
+  unfold sliceResult at h
+  split at h
+  · rename_i hs
+    cases h
+    simp [sliceItemSpec, exactly, hs]
+  · rename_i hs
+    split at h
+    · cases h
+    · rename_i c rest hc
+      cases h
+      simp [sliceItemSpec, hs, hc]
+
+theorem getItemSpec_model {t : List Cell} (ht : Canon t)
+    (hr : ∀ c ∈ t, Date.min ≤ c.ps ∧ c.ps ≤ Date.max)
+    (p e : DateIdx) (m : MetaIdx) (hp : p ≠ .bad) (he : e ≠ .bad) {out : List Cell ⊕ Cell}
+    (h : Triangle.getItem t p e m = .ok out) : getItemSpec t p e m out = true := by
+  rw [getItem_eq_filter ht hr p e m hp he] at h
+  unfold itemResult at h
+  split at h
+  · rename_i hs
+    cases h
+    simp [getItemSpec, exactly, hs]
+  · rename_i hs
+    split at h
+    · cases h
+    · rename_i c rest hc
+      cases h
+      simp [getItemSpec, hs, hc]
+
+/-- what comes back from slicing a slice is again a canonical single-slice triangle whose cells
+are cells of the input (so indexing can be chained); a returned cell is a cell of the input lying
+at the requested period start and evaluation date -/
+theorem sliceGetItem_result {t : List Cell} (ht : Canon t) (h1 : singleSlice t = true)
+    (hr : ∀ c ∈ t, Date.min ≤ c.ps ∧ c.ps ≤ Date.max)
+    (p e : DateIdx) (hp : p ≠ .bad) (he : e ≠ .bad) {out : List Cell ⊕ Cell}
+    (h : TriangleSlice.getItem t p e = .ok out) :
+    match out with
+    | .inl r => Canon r ∧ singleSlice r = true ∧ r.Sublist t
+    | .inr c => c ∈ t ∧ within p c.ps = true ∧ within e c.ev = true := by
+  rw [sliceGetItem_eq_filter ht h1 hr p e hp he] at h
+  have hsub : (t.filter (sliceKeep p e)).Sublist t := List.filter_sublist
+  unfold sliceResult at h
+  split at h
+  · cases h
+    exact ⟨ht.sublist hsub, singleSlice_sublist hsub h1, hsub⟩
+  · split at h
+    · cases h
+    · rename_i c rest hc
+      cases h
+      have : c ∈ t.filter (sliceKeep p e) := by rw [hc]; simp
+      have := List.mem_filter.mp this
+      simpa [sliceKeep] using this
+
+/-! ### 10. the other index shapes of `__getitem__` -/
+
+/-- **`cells[i]`**: positions `-n … n-1` are served (negative ones counted from the end), every
+other position is refused with `IndexError` -/
+theorem pyIndex_spec (t : List Cell) (i : Int) :
+    (intItemRefused t i = true ∧ pyIndex t i = .error .indexError) ∨
+    (intItemRefused t i = false ∧ ∃ c, pyIndex t i = .ok c ∧ intItemSpec t i (.inr c) = true) := by
+  unfold pyIndex intItemRefused intItemSpec
+  by_cases hneg : i < 0
+  · simp only [hneg, if_true]
+    by_cases hlow : i + (t.length : Int) < 0
+    · left; simp only [hlow, if_true, and_true]; simp; omega
+    · right
+      have hk : (i + (t.length : Int)).toNat < t.length := by omega
+      refine ⟨by simp; omega, t[(i + (t.length : Int)).toNat], ?_, ?_⟩
+      · simp [hlow, List.getElem?_eq_getElem hk]
+      · have h0 : ¬ (0 ≤ i) := by omega
+        have hk' : (-i - 1).toNat < t.length := by omega
+        simp only [h0, if_false, List.getElem?_reverse hk', beq_iff_eq]
+        rw [List.getElem?_eq_getElem (by omega)]
+        congr 2
+        omega
+  · have h0 : 0 ≤ i := by omega
+    have hnn : ¬ (i < 0) := hneg
+    simp only [hnn, if_false, h0, if_true]
+    by_cases hhi : i.toNat < t.length
+    · right
+      refine ⟨by simp; omega, t[i.toNat], ?_, by simp [List.getElem?_eq_getElem hhi]⟩
+      simp [List.getElem?_eq_getElem hhi]
+    · left
+      have : t[i.toNat]? = none := List.getElem?_eq_none (by omega)
+      simp only [this, and_true]
+      simp; omega
+
+theorem getItemAny_int_ok {t : List Cell} {i : Int} {out : List Cell ⊕ Cell}
+    (h : Triangle.getItemAny t (.int i) = .ok out) : intItemSpec t i out = true := by
+  rcases pyIndex_spec t i with ⟨_, he⟩ | ⟨_, c, hc, hs⟩
+  · simp [Triangle.getItemAny, he, bind, Except.bind] at h
+  · simp only [Triangle.getItemAny, hc, bind, Except.bind, pure, Except.pure, Except.ok.injEq] at h
+    subst h; exact hs
+
+theorem getItemAny_int_err {t : List Cell} {i : Int} {e : Err}
+    (h : Triangle.getItemAny t (.int i) = .error e) : e = .indexError ∧ intItemRefused t i = true := by
+  rcases pyIndex_spec t i with ⟨hr, he⟩ | ⟨_, c, hc, _⟩
+  · simp only [Triangle.getItemAny, he, bind, Except.bind, Except.error.injEq] at h
+    exact ⟨h.symm, hr⟩
+  · simp [Triangle.getItemAny, hc, bind, Except.bind, pure, Except.pure] at h
+
+/-- an integer index means the same on a `TriangleSlice` -/
+theorem sliceGetItemAny_int (t : List Cell) (i : Int) :
+    TriangleSlice.getItemAny t (.int i) = Triangle.getItemAny t (.int i) := rfl
+
+theorem pySlice_eq_clamp {α} (l : List α) (i j : Option Int) :
+    pySlice l i j = (l.take (clampPos l.length j l.length)).drop (clampPos l.length i 0) := by
+  have hn : ∀ (x : Int) (d : Nat),
+      (if x < 0 then max 0 (x + (l.length : Int)) else min x l.length).toNat =
+        clampPos l.length (some x) d := by
+    intro x d; simp only [clampPos]; split <;> omega
+  cases i <;> cases j <;> simp only [pySlice, hn _ 0] <;> simp [clampPos]
+
+theorem posSliceSpec_pySlice (t : List Cell) (i j : Option Int) :
+    posSliceSpec t i j (.inl (pySlice t i j)) = true := by
+  have hle : clampPos t.length j t.length ≤ t.length := by
+    cases j with
+    | none => simp [clampPos]
+    | some x => simp only [clampPos]; split <;> omega
+  simp only [posSliceSpec, pySlice_eq_clamp, List.length_drop, List.length_take,
+    Bool.and_eq_true, beq_iff_eq, List.all_eq_true, List.mem_range]
+  refine ⟨by omega, fun k hk => ?_⟩
+  rw [List.getElem?_drop, List.getElem?_take]
+  have : clampPos t.length i 0 + k < clampPos t.length j t.length := by omega
+  simp [this]
+
+/-- **`t[i:j]`** on a canonical triangle: the cells at positions `i ≤ k < j`, unchanged, in order -/
+theorem getItemAny_slice {t : List Cell} (ht : Canon t) (i j : Option Int) :
+    Triangle.getItemAny t (.slice i j none) = .ok (.inl (pySlice t i j)) ∧
+    posSliceSpec t i j (.inl (pySlice t i j)) = true := by
+  refine ⟨?_, posSliceSpec_pySlice t i j⟩
+  simp [Triangle.getItemAny, pyGetSlice, bind, Except.bind, pure, Except.pure,
+    ofCells_sublist (Properties.C01.pySlice_sublist t i j) ht.1 ht.2]
+
+theorem sliceGetItemAny_slice {t : List Cell} (ht : Canon t) (h1 : singleSlice t = true)
+    (i j : Option Int) :
+    TriangleSlice.getItemAny t (.slice i j none) = .ok (.inl (pySlice t i j)) := by
+  have hs := Properties.C01.pySlice_sublist t i j
+  simp [TriangleSlice.getItemAny, pyGetSlice, bind, Except.bind, pure, Except.pure,
+    sliceOfCells_single (ht.sublist hs) (singleSlice_sublist hs h1)]
+
+/-- with a step the positional slice is C01's `t[i:j:k]` (`Triangle.getSliceStep`) -/
+theorem getItemAny_sliceStep (t : List Cell) (i j : Option Int) (k : Int) :
+    Triangle.getItemAny t (.slice i j (some k)) = (Triangle.getSliceStep t i j k).map .inl := by
+  simp only [Triangle.getItemAny, pyGetSlice, Triangle.getSliceStep]
+  split
+  · rfl
+  · simp only [bind, Except.bind]
+    cases Triangle.ofCells (pySliceStep t i j k) <;> rfl
+
+/-- a zero step is refused -/
+theorem getItemAny_zero_step (t : List Cell) (i j : Option Int) :
+    Triangle.getItemAny t (.slice i j (some 0)) = .error .valueError ∧
+    TriangleSlice.getItemAny t (.slice i j (some 0)) = .error .valueError := ⟨rfl, rfl⟩
+
+/-- **a tuple index of the wrong length is refused** (`ValueError`), an index without a length
+raises `TypeError` -/
+theorem getItemAny_arity (t : List Cell) (xs : List IdxVal) (h : xs.length ≠ 3) :
+    Triangle.getItemAny t (.tuple xs) = .error .valueError := by
+  match xs, h with
+  | [], _ => rfl
+  | [_], _ => rfl
+  | [_, _], _ => rfl
+  | [_, _, _], h => exact absurd rfl h
+  | _ :: _ :: _ :: _ :: _, _ => rfl
+
+theorem sliceGetItemAny_arity (t : List Cell) (xs : List IdxVal) (h : xs.length ≠ 2) :
+    TriangleSlice.getItemAny t (.tuple xs) = .error .valueError := by
+  match xs, h with
+  | [], _ => rfl
+  | [_], _ => rfl
+  | [_, _], h => exact absurd rfl h
+  | _ :: _ :: _ :: _, _ => rfl
+
+theorem getItemAny_noLen (t : List Cell) :
+    Triangle.getItemAny t .noLen = .error .typeError ∧
+    TriangleSlice.getItemAny t .noLen = .error .typeError := ⟨rfl, rfl⟩
+
+/-- a component that is neither a date nor a slice (a `Metadata`, `None`, a string …) in the
+period or evaluation position is refused -/
+theorem toDateIdx_bad_iff (x : IdxVal) :
+    x.toDateIdx = .bad ↔ (∀ d, x ≠ .date d) ∧ (∀ s e, x ≠ .slice s e) := by
+  cases x <;> simp [IdxVal.toDateIdx]
+
+/-- **`t[period, evaluation, metadata]` with arbitrary components** equals the filter: the
+metadata component keeps everything when falsy or `:`, the cells of that metadata when it is a
+`Metadata`, nothing when it is any other object; a triangle comes back when some component is a
+slice -/
+theorem getItemAny_eq_filter {t : List Cell} (ht : Canon t)
+    (hr : ∀ c ∈ t, Date.min ≤ c.ps ∧ c.ps ≤ Date.max)
+    (p e m : IdxVal) (hp : p.toDateIdx ≠ .bad) (he : e.toDateIdx ≠ .bad) :
+    Triangle.getItemAny t (.tuple [p, e, m]) =
+      itemResult p.toDateIdx e.toDateIdx m.toMetaIdx
+        (t.filter (itemKeep p.toDateIdx e.toDateIdx m.toMetaIdx)) :=
+  getItem_eq_filter ht hr _ _ _ hp he
+
+theorem sliceGetItemAny_eq_filter {t : List Cell} (ht : Canon t) (h1 : singleSlice t = true)
+    (hr : ∀ c ∈ t, Date.min ≤ c.ps ∧ c.ps ≤ Date.max)
+    (p e : IdxVal) (hp : p.toDateIdx ≠ .bad) (he : e.toDateIdx ≠ .bad) :
+    TriangleSlice.getItemAny t (.tuple [p, e]) =
+      sliceResult p.toDateIdx e.toDateIdx (t.filter (sliceKeep p.toDateIdx e.toDateIdx)) :=
+  sliceGetItem_eq_filter ht h1 hr _ _ hp he
+
+/-- a junk metadata component selects nothing: an empty triangle when it is a slice (or another
+component is), `IndexError` otherwise -/
+theorem getItem_junk {t : List Cell} (ht : Canon t)
+    (hr : ∀ c ∈ t, Date.min ≤ c.ps ∧ c.ps ≤ Date.max)
+    (p e : DateIdx) (b : Bool) (hp : p ≠ .bad) (he : e ≠ .bad) :
+    Triangle.getItem t p e (.junk b) =
+      if p.isSlice || e.isSlice || b then .ok (.inl []) else .error .indexError := by
+  rw [getItem_eq_filter ht hr p e _ hp he]
+  have : t.filter (itemKeep p e (.junk b)) = [] := by
+    rw [List.filter_eq_nil_iff]; intro c _; simp [itemKeep]
+  rw [this]; rfl
+
+/-- `slice_to_triangle(triangle_to_slice(t))` gives back a canonical single-slice triangle -/
+theorem slice_roundtrip {t : List Cell} (ht : Canon t) (h1 : singleSlice t = true) :
+    (triangleToSlice t >>= sliceToTriangle) = .ok t := by
+  simp only [triangleToSlice, sliceToTriangle, sliceOfCells_single ht h1, bind, Except.bind]
+  exact ofCells_sublist (List.Sublist.refl t) ht.1 ht.2
+
+/-! ### 11. `is_right_edge_ragged` -/
+
+theorem kindsConsistent_of_subset {s l : List Cell} (hs : ∀ c ∈ s, c ∈ l)
+    (hk : kindsConsistent l = true) : kindsConsistent s = true := by
+  unfold kindsConsistent at *
+  simp only [Bool.or_eq_true, List.all_eq_true] at *
+  rcases hk with (hk | hk) | hk
+  · exact Or.inl (Or.inl fun c hc => hk c (hs c hc))
+  · exact Or.inl (Or.inr fun c hc => hk c (hs c hc))
+  · exact Or.inr fun c hc => hk c (hs c hc)
+
+/-- `right_edge` never refuses a canonical triangle -/
+theorem rightEdge_ok {s : List Cell} (hs : Canon s) : ∃ r, Triangle.rightEdge s = .ok r := by
+  rw [rightEdge_eq]
+  unfold Triangle.ofCells
+  have : kindsConsistent (rightEdgeRows s) = true :=
+    kindsConsistent_of_subset (fun c hc => mem_rightEdge_rows hc) hs.2
+  simp [this]
+
+theorem dedupFold_inv {α} [BEq α] [LawfulBEq α] (l acc : List α) (h : acc.Nodup) :
+    (l.foldl (fun acc x => if acc.contains x then acc else acc ++ [x]) acc).Nodup ∧
+    ∀ x, x ∈ l.foldl (fun acc x => if acc.contains x then acc else acc ++ [x]) acc ↔ x ∈ acc ∨ x ∈ l := by
+  induction l generalizing acc with
+  | nil => simp [h]
+  | cons a l ih =>
+    simp only [List.foldl_cons]
+    by_cases hc : acc.contains a = true
+    · have ha : a ∈ acc := by simpa using hc
+      simp only [hc, if_true]
+      refine ⟨(ih acc h).1, fun x => ?_⟩
+      rw [(ih acc h).2 x]
+      constructor
+      · rintro (h | h)
+        · exact Or.inl h
+        · exact Or.inr (List.mem_cons_of_mem _ h)
+      · rintro (h | h)
+        · exact Or.inl h
+        · rcases List.mem_cons.mp h with rfl | h
+          · exact Or.inl ha
+          · exact Or.inr h
+    · have ha : a ∉ acc := by simpa using hc
+      have hn : (acc ++ [a]).Nodup := by
+        rw [List.nodup_append]
+        refine ⟨h, by simp, ?_⟩
+        intro x hx y hy
+        simp at hy; subst hy
+        intro e; exact ha (e ▸ hx)
+      simp only [hc, Bool.false_eq_true, if_false]
+      refine ⟨(ih _ hn).1, fun x => ?_⟩
+      rw [(ih _ hn).2 x]
+      simp only [List.mem_append, List.mem_cons, List.not_mem_nil, or_false]
+      constructor
+      · rintro ((h | h) | h)
+        · exact Or.inl h
+        · exact Or.inr (Or.inl h)
+        · exact Or.inr (Or.inr h)
+      · rintro (h | h | h)
+        · exact Or.inl (Or.inl h)
+        · exact Or.inl (Or.inr h)
+        · exact Or.inr h
+
+/-- `len(set(xs)) > 1` exactly when two entries differ -/
+theorem distinctCount_gt_one_iff {α} [BEq α] [LawfulBEq α] (xs : List α) :
+    1 < distinctCount xs ↔ ∃ a ∈ xs, ∃ b ∈ xs, a ≠ b := by
+  obtain ⟨hnd, hmem⟩ := dedupFold_inv xs [] (by simp)
+  unfold distinctCount
+  generalize xs.foldl (fun acc x => if acc.contains x then acc else acc ++ [x]) [] = r at hnd hmem
+  simp only [List.not_mem_nil, false_or] at hmem
+  constructor
+  · intro h
+    match r, hnd, hmem, h with
+    | x :: y :: rest, hnd, hmem, _ =>
+      refine ⟨x, (hmem x).mp (by simp), y, (hmem y).mp (by simp), ?_⟩
+      intro e; subst e; simp at hnd
+  · rintro ⟨a, ha, b, hb, hne⟩
+    match r, hnd, hmem with
+    | [], _, hmem => exact absurd ((hmem a).mpr ha) (by simp)
+    | [x], _, hmem =>
+      have h1 := (hmem a).mpr ha
+      have h2 := (hmem b).mpr hb
+      simp only [List.mem_singleton] at h1 h2
+      exact absurd (h1.trans h2.symm) hne
+    | _ :: _ :: _, _, _ => simp
+
+theorem raggedIn_eq (l : List (Metadata × List Cell)) (f : List Cell → List Cell)
+    (h : ∀ p ∈ l, Triangle.rightEdge p.2 = .ok (f p.2)) :
+    raggedIn l = .ok (l.any fun p => decide (1 < distinctCount ((f p.2).map (·.ev)))) := by
+  induction l with
+  | nil => rfl
+  | cons p l ih =>
+    obtain ⟨m, slc⟩ := p
+    have h0 := h (m, slc) (by simp)
+    simp only [] at h0
+    simp only [raggedIn, h0, bind, Except.bind, List.any_cons]
+    by_cases hd : 1 < distinctCount ((f slc).map (·.ev))
+    · simp [hd, pure, Except.pure]
+    · have : ¬ distinctCount ((f slc).map (·.ev)) > 1 := hd
+      simp only [this, if_false, decide_false, Bool.false_or]
+      exact ih (fun p hp => h p (by simp [hp]))
+
+/-- a cell is the latest of its (slice, period) row -/
+def latestIn (t : List Cell) (c : Cell) : Prop := ∀ c' ∈ t, sameRow c c' = true → c'.ev ≤ c.ev
+
+/-- **`is_right_edge_ragged`** is `True` exactly when some slice holds two cells, each the latest
+of its period row, with different evaluation dates (and it never raises on a canonical triangle) -/
+theorem isRightEdgeRagged_iff {t : List Cell} (ht : Canon t) :
+    ∃ b, Triangle.isRightEdgeRagged t = .ok b ∧
+      (b = true ↔ ∃ x ∈ t, ∃ y ∈ t, x.md = y.md ∧ latestIn t x ∧ latestIn t y ∧ x.ev ≠ y.ev) := by
+  let f : List Cell → List Cell := fun s => match Triangle.rightEdge s with
+    | .ok r => r
+    | .error _ => []
+  have hcan : ∀ m, Canon (t.filter (fun c => c.md == m)) := fun m => ht.sublist List.filter_sublist
+  have hf : ∀ m, Triangle.rightEdge (t.filter (fun c => c.md == m)) = .ok (f (t.filter (fun c => c.md == m))) := by
+    intro m
+    obtain ⟨r, hr⟩ := rightEdge_ok (hcan m)
+    simp only [f, hr]
+  obtain ⟨_, hmem, hcov⟩ := metasOf_spec t
+  have hsym : ∀ a b : Cell, sameRow a b = true → sameRow b a = true := by
+    intro a b h
+    have := (sameRow_iff _ _).mp h
+    exact (sameRow_iff _ _).mpr ⟨this.1.symm, this.2.symm⟩
+  refine ⟨((metasOf t).map fun m => (m, t.filter (fun c => c.md == m))).any fun p =>
+    decide (1 < distinctCount ((f p.2).map (·.ev))), ?_, ?_⟩
+  · unfold Triangle.isRightEdgeRagged
+    rw [slices_eq ht]
+    apply raggedIn_eq _ f
+    intro p hp
+    obtain ⟨m, _, rfl⟩ := List.mem_map.mp hp
+    exact hf m
+  · simp only [List.any_map, List.any_eq_true, Function.comp_apply, decide_eq_true_eq,
+      distinctCount_gt_one_iff, List.mem_map]
+    constructor
+    · rintro ⟨m, hm, _, ⟨x, hx, rfl⟩, _, ⟨y, hy, rfl⟩, hne⟩
+      obtain ⟨h1, _, _⟩ := rightEdge_spec (hcan m) (hf m)
+      obtain ⟨hxs, hxl⟩ := h1 x hx
+      obtain ⟨hys, hyl⟩ := h1 y hy
+      have hxm : x.md = m := by simpa using (List.mem_filter.mp hxs).2
+      have hym : y.md = m := by simpa using (List.mem_filter.mp hys).2
+      refine ⟨x, (List.mem_filter.mp hxs).1, y, (List.mem_filter.mp hys).1, hxm.trans hym.symm, ?_, ?_, hne⟩
+      · intro c' hc' hrow
+        have := ((sameRow_iff _ _).mp hrow).1
+        exact hxl c' (List.mem_filter.mpr ⟨hc', by simp [← this, hxm]⟩) hrow
+      · intro c' hc' hrow
+        have := ((sameRow_iff _ _).mp hrow).1
+        exact hyl c' (List.mem_filter.mpr ⟨hc', by simp [← this, hym]⟩) hrow
+    · rintro ⟨x, hx, y, hy, hmd, hxl, hyl, hne⟩
+      obtain ⟨h1, h2, _⟩ := rightEdge_spec (hcan x.md) (hf x.md)
+      have hxs : x ∈ t.filter (fun c => c.md == x.md) := List.mem_filter.mpr ⟨hx, by simp⟩
+      have hys : y ∈ t.filter (fun c => c.md == x.md) := List.mem_filter.mpr ⟨hy, by simp [hmd]⟩
+      obtain ⟨x', hx', hrx⟩ := h2 x hxs
+      obtain ⟨y', hy', hry⟩ := h2 y hys
+      have ex : x'.ev = x.ev := by
+        have a1 := hxl x' (List.mem_filter.mp (h1 x' hx').1).1 (hsym _ _ hrx)
+        have a2 := (h1 x' hx').2 x hxs hrx
+        exact Date.le_antisymm a1 a2
+      have ey : y'.ev = y.ev := by
+        have a1 := hyl y' (List.mem_filter.mp (h1 y' hy').1).1 (hsym _ _ hry)
+        have a2 := (h1 y' hy').2 y hys hry
+        exact Date.le_antisymm a1 a2
+      exact ⟨x.md, hcov x hx, _, ⟨x', hx', rfl⟩, _, ⟨y', hy', rfl⟩, by rw [ex, ey]; exact hne⟩
+
+/-- the Spec predicate holds of the model's answer -/
+theorem raggedSpec_model {t : List Cell} (ht : Canon t) {b : Bool}
+    (h : Triangle.isRightEdgeRagged t = .ok b) : raggedSpec t b = true := by
+  obtain ⟨b', hb', hiff⟩ := isRightEdgeRagged_iff ht
+  rw [hb'] at h
+  cases h
+  have hl : ∀ c, (t.all (fun c' => !sameRow c c' || decide (c'.ev ≤ c.ev))) = true ↔ latestIn t c := by
+    intro c
+    simp only [latestIn, List.all_eq_true, Bool.or_eq_true, Bool.not_eq_true', decide_eq_true_eq]
+    constructor
+    · intro H c' hc' hrow
+      rcases H c' hc' with h | h
+      · rw [hrow] at h; cases h
+      · exact h
+    · intro H c' hc'
+      cases hrow : sameRow c c' with
+      | false => exact Or.inl rfl
+      | true => exact Or.inr (H c' hc' hrow)
+  simp only [raggedSpec, beq_iff_eq]
+  rw [Bool.eq_iff_iff, hiff]
+  simp only [List.any_eq_true, Bool.and_eq_true, hl, beq_iff_eq, bne_iff_ne, ne_eq]
+  constructor
+  · rintro ⟨x, hx, y, hy, hmd, hxl, hyl, hne⟩
+    exact ⟨y, hy, hyl, x, hx, ⟨hmd, hxl⟩, hne⟩
+  · rintro ⟨y, hy, hyl, x, hx, ⟨hmd, hxl⟩, hne⟩
+    exact ⟨x, hx, y, hy, hmd, hxl, hyl, hne⟩
+
+/-! ### non-vacuity for the `TriangleSlice` theorems -/
+
+theorem exT_single : singleSlice exT = true := by decide
+
+example : TriangleSlice.getItem exT (.slice (some ⟨2020, 1, 1⟩) none) (.scalar ⟨2021, 12, 31⟩) =
+    .ok (.inl (exT.drop 1)) := by
+  rw [sliceGetItem_eq_filter exT_canon exT_single exT_range _ _ (by simp) (by simp)]
+  have : exT.filter (sliceKeep (.slice (some ⟨2020, 1, 1⟩) none) (.scalar ⟨2021, 12, 31⟩)) = exT.drop 1 := by
+    decide
+  rw [this]; rfl
+
+example : TriangleSlice.getItem exT (.scalar ⟨2020, 1, 1⟩) (.scalar ⟨2021, 12, 31⟩) =
+    .ok (.inr (exT[1])) := by
+  rw [sliceGetItem_eq_filter exT_canon exT_single exT_range _ _ (by simp) (by simp)]
+  have : exT.filter (sliceKeep (.scalar ⟨2020, 1, 1⟩) (.scalar ⟨2021, 12, 31⟩)) = [exT[1]] := by
+    decide
+  rw [this]; rfl
+
+/-- and the multi-slice refusal applies to a concrete two-metadata sequence -/
+example : TriangleSlice.ofCells (exT ++ [{ exT[0] with md := { country := some "US" } }]) =
+    .error .triangleError :=
+  sliceOfCells_multi (a := exT[0]) (b := { exT[0] with md := { country := some "US" } })
+    (by simp) (by simp) (by decide)
 
 end Bermuda.Properties.C11
